@@ -20,3 +20,226 @@ def item_cal_products(repo, out):
 
 
 ITEMS = [item_cal_products]
+
+
+# ---------------------------------------------------------------------------
+# decision expressions of applycal.py / visdatav4.py that the model is built on (fail-closed on any other shape)
+import ast   # noqa: E402
+
+from vh.translate import coq_string   # noqa: E402
+
+
+def _norm(node):
+    return ast.unparse(node).replace(' ', '').replace('\n', '')
+
+
+def _top_func(tree, name, rel):
+    found = [n for n in tree.body if isinstance(n, ast.FunctionDef) and n.name == name]
+    if len(found) != 1:
+        raise TranslateError('%s: expected exactly one function %s' % (rel, name))
+    return found[0]
+
+
+def _coq_bool(b):
+    return 'true' if b else 'false'
+
+
+def _interp_call(fn, rel, args):
+    """the one complex_interp(...) call of fn: positional arguments must be `args`; returns (left, right) where each is
+    True (INVALID_GAIN passed) or False (argument absent = np.interp holds the end value)"""
+    calls = [n for n in ast.walk(fn) if isinstance(n, ast.Call) and isinstance(n.func, ast.Name)
+             and n.func.id == 'complex_interp']
+    if len(calls) != 1:
+        raise TranslateError('%s:%s: expected exactly one complex_interp call, found %d' % (rel, fn.name, len(calls)))
+    c = calls[0]
+    if [_norm(a) for a in c.args] != args:
+        raise TranslateError('%s:%s: complex_interp arguments are %s, expected %s' % (
+            rel, fn.name, [_norm(a) for a in c.args], args))
+    edge = {'left': False, 'right': False}
+    for kw in c.keywords:
+        if kw.arg not in edge or not (isinstance(kw.value, ast.Name) and kw.value.id == 'INVALID_GAIN'):
+            raise TranslateError('%s:%s: complex_interp keyword %s=%s not understood' % (
+                rel, fn.name, kw.arg, _norm(kw.value)))
+        edge[kw.arg] = True
+    return edge['left'], edge['right']
+
+
+def _assigned(fn, name, rel):
+    found = [n for n in ast.walk(fn) if isinstance(n, ast.Assign) and len(n.targets) == 1
+             and isinstance(n.targets[0], ast.Name) and n.targets[0].id == name]
+    if len(found) != 1:
+        raise TranslateError('%s:%s: expected exactly one assignment to %s, found %d' % (rel, fn.name, name, len(found)))
+    return _norm(found[0].value)
+
+
+def item_interp_edges(repo, out):
+    """how calc_bandpass_correction / calc_gain_correction call complex_interp (what happens beyond the outermost
+    valid node) and which solutions they call valid"""
+    rel = 'katdal/applycal.py'
+    tree = _parse(repo, rel)
+    fn = _top_func(tree, 'calc_bandpass_correction', rel)
+    bl, br = _interp_call(fn, rel, ['data_freqs', 'cal_freqs[valid]', 'bp[valid]'])
+    if _assigned(fn, 'valid', rel) != 'np.isfinite(bp)':
+        raise TranslateError('%s: calc_bandpass_correction valid mask is not np.isfinite(bp)' % rel)
+    fn = _top_func(tree, 'calc_gain_correction', rel)
+    gl, gr = _interp_call(fn, rel, ['dumps[on_target]', 'events[valid]', 'gains_per_chan[valid]'])
+    valid = _assigned(fn, 'valid', rel)
+    if valid == 'np.isfinite(gains_per_chan)&on_target[events]':
+        on_target = True
+    elif valid == 'np.isfinite(gains_per_chan)':
+        on_target = False
+    else:
+        raise TranslateError('%s: calc_gain_correction valid mask %s not understood' % (rel, valid))
+    if _assigned(fn, 'on_target', rel) != 'targets==target':
+        raise TranslateError('%s: calc_gain_correction on_target is not (targets == target)' % rel)
+    out.append('(* katdal/applycal.py: complex_interp(..., left=INVALID_GAIN, right=INVALID_GAIN) in '
+               'calc_bandpass_correction, no left/right in calc_gain_correction; the valid masks *)')
+    out.append('Definition bandpass_left_invalid : bool := %s.' % _coq_bool(bl))
+    out.append('Definition bandpass_right_invalid : bool := %s.' % _coq_bool(br))
+    out.append('Definition gain_left_invalid : bool := %s.' % _coq_bool(gl))
+    out.append('Definition gain_right_invalid : bool := %s.' % _coq_bool(gr))
+    out.append('Definition gain_valid_needs_on_target : bool := %s.' % _coq_bool(on_target))
+
+
+_DISPATCH_BODIES = {
+    ('correction_sensor=calc_delay_correction(product_sensor,index,data_freqs)',): (0, False, False),
+    ('correction_sensor=calc_bandpass_correction(product_sensor,index,data_freqs,cal_freqs)',): (1, False, False),
+    ('correction_sensor=calc_gain_correction(product_sensor,index)',): (2, False, False),
+    ('correction_sensor=calc_gain_correction(product_sensor,index,targets)',): (2, False, True),
+    ('product_sensor=calibrate_flux(product_sensor,targets,gaincal_flux)',
+     'correction_sensor=calc_gain_correction(product_sensor,index)'): (2, True, False),
+    ('product_sensor=calibrate_flux(product_sensor,targets,gaincal_flux)',
+     'correction_sensor=calc_gain_correction(product_sensor,index,targets)'): (2, True, True),
+}
+
+
+def item_cal_dispatch(repo, out):
+    """calc_correction_per_input: product type -> (calculator, flux calibrated first?, interpolated per target?)"""
+    rel = 'katdal/applycal.py'
+    tree = _parse(repo, rel)
+    outer = _top_func(tree, 'add_applycal_sensors', rel)
+    inner = [n for n in outer.body if isinstance(n, ast.FunctionDef) and n.name == 'calc_correction_per_input']
+    if len(inner) != 1:
+        raise TranslateError('%s: calc_correction_per_input not found in add_applycal_sensors' % rel)
+    fn = inner[0]
+    first = [_norm(s) for s in fn.body if isinstance(s, ast.Assign)][:1]
+    if first != ['product_sensor=get_cal_product(cache,cal_stream,product_type)']:
+        raise TranslateError('%s: calc_correction_per_input does not start from get_cal_product(cache, cal_stream, '
+                             'product_type)' % rel)
+    chains = [s for s in fn.body if isinstance(s, ast.If)]
+    if len(chains) != 1:
+        raise TranslateError('%s: calc_correction_per_input: expected one if/elif chain on product_type' % rel)
+    node, table = chains[0], []
+    while True:
+        t = node.test
+        if not (isinstance(t, ast.Compare) and isinstance(t.left, ast.Name) and t.left.id == 'product_type'
+                and len(t.ops) == 1 and len(t.comparators) == 1):
+            raise TranslateError('%s: dispatch test %s not understood' % (rel, _norm(t)))
+        if isinstance(t.ops[0], ast.Eq) and isinstance(t.comparators[0], ast.Constant):
+            types = (t.comparators[0].value,)
+        elif isinstance(t.ops[0], ast.In) and isinstance(t.comparators[0], (ast.Tuple, ast.List)):
+            types = tuple(e.value if isinstance(e, ast.Constant) else None for e in t.comparators[0].elts)
+        else:
+            raise TranslateError('%s: dispatch test %s not understood' % (rel, _norm(t)))
+        if not types or not all(isinstance(x, str) and x for x in types):
+            raise TranslateError('%s: dispatch test %s not understood' % (rel, _norm(t)))
+        body = tuple(_norm(s) for s in node.body)
+        if body not in _DISPATCH_BODIES:
+            raise TranslateError('%s: dispatch branch for %s not understood: %s' % (rel, types, body))
+        for x in types:
+            if x in [n for n, _ in table]:
+                raise TranslateError('%s: product type %s dispatched twice' % (rel, x))
+            table.append((x, _DISPATCH_BODIES[body]))
+        if len(node.orelse) == 1 and isinstance(node.orelse[0], ast.If):
+            node = node.orelse[0]
+            continue
+        last = node.orelse
+        if not (len(last) == 1 and isinstance(last[0], ast.Raise) and isinstance(last[0].exc, ast.Call)
+                and _norm(last[0].exc.func) == 'KeyError'):
+            raise TranslateError('%s: unknown product types do not raise KeyError' % rel)
+        break
+    tail = [_norm(s) for s in fn.body[fn.body.index(chains[0]) + 1:]]
+    if tail != ['cache[name]=correction_sensor', 'returncorrection_sensor']:
+        raise TranslateError('%s: calc_correction_per_input tail is %s' % (rel, tail))
+    out.append('(* katdal/applycal.py calc_correction_per_input: type -> (0 delay | 1 bandpass | 2 gain, '
+               '(calibrate_flux first, interpolate per target)) *)')
+    out.append('Definition cal_dispatch : list (string * (Z * (bool * bool))) := [%s].' % '; '.join(
+        '(%s, ((%d)%%Z, (%s, %s)))' % (coq_string(n), k, _coq_bool(f), _coq_bool(t)) for n, (k, f, t) in table))
+
+
+def item_skip_rule(repo, out):
+    """_normalise_cal_products: skip_missing_products = products in (<groups>) or any('.' not in p for p in requested),
+    requested = _selection_to_list(products, all=cal_streams, default=DEFAULT_CAL_PRODUCTS)"""
+    rel = 'katdal/visdatav4.py'
+    tree = _parse(repo, rel)
+    fn = _top_func(tree, '_normalise_cal_products', rel)
+    if [a.arg for a in fn.args.args] != ['products', 'cal_streams']:
+        raise TranslateError('%s: _normalise_cal_products signature changed' % rel)
+    req = _assigned(fn, 'requested_cal_products', rel)
+    if req != '_selection_to_list(products,all=cal_streams,default=DEFAULT_CAL_PRODUCTS)':
+        raise TranslateError('%s: requested_cal_products = %s' % (rel, req))
+    found = [n for n in ast.walk(fn) if isinstance(n, ast.Assign) and len(n.targets) == 1
+             and isinstance(n.targets[0], ast.Name) and n.targets[0].id == 'skip_missing_products']
+    if len(found) != 1:
+        raise TranslateError('%s: expected one assignment to skip_missing_products' % rel)
+    v = found[0].value
+    ok = (isinstance(v, ast.BoolOp) and isinstance(v.op, ast.Or) and len(v.values) == 2
+          and isinstance(v.values[0], ast.Compare) and _norm(v.values[0].left) == 'products'
+          and len(v.values[0].ops) == 1 and isinstance(v.values[0].ops[0], ast.In)
+          and isinstance(v.values[0].comparators[0], (ast.Tuple, ast.List))
+          and _norm(v.values[1]) == "any(('.'notinproductforproductinrequested_cal_products))")
+    if not ok:
+        raise TranslateError('%s: skip_missing_products = %s not understood' % (rel, _norm(v)))
+    groups = [e.value if isinstance(e, ast.Constant) else None for e in v.values[0].comparators[0].elts]
+    if not all(isinstance(g, str) and g for g in groups):
+        raise TranslateError('%s: skip groups %s' % (rel, groups))
+    if _norm(fn.body[-1]) != 'return(normalised_cal_products,skip_missing_products)':
+        raise TranslateError('%s: _normalise_cal_products returns %s' % (rel, _norm(fn.body[-1])))
+    out.append('(* katdal/visdatav4.py _normalise_cal_products: requests that always skip missing products *)')
+    out.append('Definition skip_group_names : list string := %s.' % coq_strings(groups))
+
+
+def item_product_loop(repo, out):
+    """calc_correction: the shape of the loop that decides which products are applied (Model/CalSelect.v `select`)"""
+    rel = 'katdal/applycal.py'
+    tree = _parse(repo, rel)
+    fn = _top_func(tree, 'calc_correction', rel)
+    loops = [s for s in fn.body if isinstance(s, ast.For) and _norm(s.iter) == 'cal_products'
+             and _norm(s.target) == 'cal_product']
+    if len(loops) != 1:
+        raise TranslateError('%s: calc_correction: expected one `for cal_product in cal_products` loop' % rel)
+    inner = [s for s in loops[0].body if isinstance(s, ast.For)]
+    if len(inner) != 1 or _norm(inner[0].iter) not in ('enumerate(inputs)', 'inputs'):
+        raise TranslateError('%s: calc_correction: expected one inner loop over the inputs' % rel)
+    inner = inner[0]
+    tries = [s for s in inner.body if isinstance(s, ast.Try)]
+    if not (len(tries) == 1 and inner.body[0] is tries[0]
+            and [_norm(s) for s in tries[0].body] == ['sensor=cache.get(sensor_prefix+inp)']
+            and len(tries[0].handlers) == 1 and _norm(tries[0].handlers[0].type) == 'KeyError'
+            and not tries[0].orelse and not tries[0].finalbody):
+        raise TranslateError('%s: calc_correction: the sensor lookup is not `try: sensor = cache.get(sensor_prefix '
+                             '+ inp) except KeyError:` at the top of the input loop' % rel)
+    h = tries[0].handlers[0].body
+    if not (len(h) == 1 and isinstance(h[0], ast.If) and _norm(h[0].test) == 'skip_missing_products'
+            and [_norm(s) for s in h[0].body] == ['break'] and [_norm(s) for s in h[0].orelse] == ['raise']):
+        raise TranslateError('%s: calc_correction: a missing sensor is not handled by `if skip_missing_products: '
+                             'break (out of the INPUT loop) else: raise`' % rel)
+    if any(isinstance(n, (ast.Break, ast.Continue, ast.Return)) for s in inner.body[1:] for n in ast.walk(s)):
+        raise TranslateError('%s: calc_correction: extra break / continue / return in the input loop' % rel)
+    if not (inner.orelse and _norm(inner.orelse[0]) == 'corrections[cal_product]=corrections_per_product'):
+        raise TranslateError('%s: calc_correction: the product is not registered in the `else:` of the input loop' % rel)
+    if any(isinstance(n, (ast.Break, ast.Continue, ast.Return)) for s in inner.orelse for n in ast.walk(s)
+           if not isinstance(n, ast.Lambda)):
+        raise TranslateError('%s: calc_correction: break / continue / return while registering a product' % rel)
+    if any(isinstance(n, (ast.Break, ast.Continue, ast.Return)) for s in loops[0].body if s is not inner
+           for n in ast.walk(s)):
+        raise TranslateError('%s: calc_correction: break / continue / return in the product loop' % rel)
+    if _assigned(fn, 'final_cal_products', rel) != 'list(corrections.keys())':
+        raise TranslateError('%s: calc_correction: final_cal_products is not list(corrections.keys())' % rel)
+    if _assigned(fn, 'corrections', rel) != '{}':
+        raise TranslateError('%s: calc_correction: corrections is not an (insertion-ordered) dict' % rel)
+    out.append('(* katdal/applycal.py calc_correction: product loop has the shape modelled by Model/CalSelect.v select *)')
+    out.append('Definition product_loop_shape_checked : bool := true.')
+
+
+ITEMS += [item_interp_edges, item_cal_dispatch, item_skip_rule, item_product_loop]
